@@ -359,6 +359,8 @@ def cfg_case(v):
 def run_template(t, tier, seed):
     if t.tid.startswith("ATTR/"):
         return run_attr_template(t, tier, seed)
+    if t.tid.startswith("COLD/"):
+        return run_cold_template(t, tier, seed)
     t0 = time.time()
     scen = t.args[0]
     res = dict(tid=t.tid, paths=0, ret_paths=0, gaps={}, harness_errors=[], mismatches=[], obligations=0, discharged=0, trivial=0, inconclusive=0,
@@ -580,6 +582,120 @@ def run_attr_template(t, tier, seed):
     return res
 
 
+# ------------------------------------------------------------------ sub-model 3: lazily filled registries at cold start
+COLD = {"frame||frame2": ("pd.frame", "pd.frame2"), "frame||series": ("pd.frame", "pd.series"), "model||frame": ("pd.model", "pd.frame"),
+        "model||model": ("pd.model", "pd.model_same"), "pd.frame||pl.frame": ("pd.frame", "pl.frame")}
+
+
+def _cold(*args, timeout=300):
+    import json
+    import os
+    import subprocess
+
+    env = dict(os.environ)
+    p = subprocess.run([sys.executable, "-m", "coldreg", *args], capture_output=True, text=True, env=env, timeout=timeout)
+    lines = [l for l in p.stdout.strip().splitlines() if l.startswith("{")]
+    if not lines:
+        raise RuntimeError("coldreg produced no result: " + (p.stderr or p.stdout)[-400:])
+    return json.loads(lines[-1])
+
+
+def run_cold_template(t, tier, seed):
+    """each call is traced alone in a FRESH interpreter (nothing validated before): its reads and writes of every plain
+    dict/set/list held by a pandera module or class.  z3 looks for an interleaving of the two traces in which a read observes the
+    other thread's write (or misses its own earlier one); every such schedule is forced on OS threads in a fresh interpreter and
+    only reported if a call's outcome differs from its solo outcome."""
+    t0 = time.time()
+    which = t.args[0]
+    names = COLD[which]
+    res = dict(tid=t.tid, paths=0, ret_paths=0, gaps={}, harness_errors=[], mismatches=[], obligations=0, discharged=0, trivial=0, inconclusive=0,
+               cex=[], replayed_ok=0, exhausted=True, samples=[], twin_refuted=None, labels={}, kinds={}, queries=0, solver_time=0.0, decisions=0)
+    try:
+        tr = {f"T{i + 1}": _cold("trace", nm) for i, nm in enumerate(names)}
+    except Exception as exc:  # noqa: BLE001
+        res["harness_errors"].append("cold trace failed: " + repr(exc)[:300])
+        return res
+    if tr["T1"]["instrumented"] == 0:
+        res["harness_errors"].append("no shared container found to instrument")
+        return res
+    written = {}
+    for tn, d in tr.items():
+        for kind, loc, val in d["events"]:
+            if kind == "w":
+                written.setdefault(loc, set()).add(tn)
+    accessed = {tn: {loc for _, loc, _ in d["events"]} for tn, d in tr.items()}
+    # a location matters if one thread writes it and the other thread touches it
+    locs = sorted(l for l, ws in written.items() if any(l in accessed[o] for o in tr if o not in ws or len(ws) > 1))
+    dom = {l: ["<absent>"] for l in locs}
+    prog = {}
+    for tn, d in tr.items():
+        p = []
+        for kind, loc, val in d["events"]:
+            if loc not in dom:
+                continue
+            if val not in dom[loc]:
+                dom[loc].append(val)
+            p.append((kind, loc, dom[loc].index(val), None))
+        prog[tn] = p
+    # the initial content of a location is what the first solo read observed before any write of that thread
+    for l in locs:
+        for tn, d in tr.items():
+            first = next(((k, v) for k, lo, v in d["events"] if lo == l), None)
+            if first and first[0] == "r" and first[1] != "<absent>" and dom[l][0] == "<absent>":
+                i = dom[l].index(first[1])
+                dom[l][0], dom[l][i] = dom[l][i], dom[l][0]
+                for tn2 in prog:
+                    prog[tn2] = [(k, lo, (i if x == 0 else 0 if x == i else x) if lo == l else x, s) for k, lo, x, s in prog[tn2]]
+                break
+    res["paths"] = res["ret_paths"] = sum(len(p) for p in prog.values())
+    res["decisions"] = res["paths"]
+    res["samples"].append(dict(template=t.tid, calls=list(names), solo={tn: d["outcome"] for tn, d in tr.items()}, containers_instrumented=tr["T1"]["instrumented"],
+                               shared_locations=locs[:12], events_per_thread={tn: len(p) for tn, p in prog.items()}))
+    res["obligations"] += 1
+    if not locs or not all(prog.values()):
+        res["discharged"] += 1
+        res["replayed_ok"] += 1
+        res["wall"] = round(time.time() - t0, 2)
+        return res
+    # keep the SMT problem small: a thread's consecutive operations on locations nobody else touches are irrelevant, and long
+    # runs are capped (the first operations on every location decide whether it is filled)
+    cap = 150 if tier == "quick" else 400
+    prog = {tn: p[:cap] for tn, p in prog.items()}
+    r = bmc_rw(prog, locs, {l: list(range(len(v))) for l, v in dom.items()}, "read", max_solutions=5 if tier == "quick" else 16, one_preemption=True)
+    res["queries"] += r["queries"]
+    res["solver_time"] += r["solver_s"]
+    if r["result"] == "unsat":
+        res["discharged"] += 1
+    elif r["result"] != "sat":
+        res["inconclusive"] += 1
+    else:
+        bad = False
+        for sol in r["solutions"]:
+            try:
+                rp = _cold("replay", ",".join(names), ",".join(sol["schedule"]))
+            except Exception as exc:  # noqa: BLE001
+                res["harness_errors"].append("cold replay failed: " + repr(exc)[:200])
+                continue
+            if any(rp["outcomes"].get(tn) is None for tn in tr):
+                res["samples"].append(dict(template=t.tid, schedule="".join(s[-1] for s in sol["schedule"]), note="forced schedule did not complete (threads blocked on interpreter locks): not evaluated"))
+                continue
+            differing = {tn: (tr[tn]["outcome"], rp["outcomes"].get(tn)) for tn in tr if rp["outcomes"].get(tn) != tr[tn]["outcome"]}
+            if differing:
+                bad = True
+                res["cex"].append(dict(tid=t.tid, label="schedule/cold_start_outcomes_as_solo", vals=dict(schedule="".join(s[-1] for s in sol["schedule"])),
+                                       facts=dict(scenario=which, calls=list(names), differing={k: list(x) for k, x in differing.items()},
+                                                  divergent_reads=[list(map(str, x)) for x in sol["divergent_reads"]]),
+                                       confirmed=True, detail=f"replayed on OS threads in a fresh interpreter: outcomes {rp['outcomes']}", args=[which]))
+            else:
+                res["samples"].append(dict(template=t.tid, schedule="".join(s[-1] for s in sol["schedule"]), note="divergent registry read without observable effect",
+                                           divergent_reads=[list(map(str, x)) for x in sol["divergent_reads"]][:3]))
+        if not bad:
+            res["discharged"] += 1
+    res["replayed_ok"] += 1
+    res["wall"] = round(time.time() - t0, 2)
+    return res
+
+
 def _key(v):
     return repr(v)
 
@@ -589,11 +705,22 @@ def _attr_now(comps, l):
     return object.__getattribute__(comps[i], attr) if attr != "dtype" else comps[i].__dict__.get("_dtype", getattr(type(comps[i]), "dtype", None) and comps[i].dtype)
 
 
-def bmc_rw(prog, locs, dom, query, max_solutions=24):
+def bmc_rw(prog, locs, dom, query, max_solutions=24, one_preemption=False):
+    """one_preemption: only schedules of the shape O^a T^|T| O^rest (thread O runs a operations, then T runs to completion, then O
+    finishes) for a solver-chosen a and either role assignment — a context-bounded family used where replays are expensive"""
     threads = list(prog)
     L = sum(len(p) for p in prog.values())
     solver = z3.Solver()
     solver.set("timeout", 120000)
+    if one_preemption and len(threads) == 2:
+        a, role = z3.Int("a"), z3.Int("role")
+        solver.add(role >= 0, role <= 1, a >= 0)
+        for r_ in (0, 1):
+            o_, t_ = r_, 1 - r_
+            lt = len(prog[threads[t_]])
+            solver.add(z3.Implies(role == r_, a <= len(prog[threads[o_]])))
+            for i in range(L):
+                solver.add(z3.Implies(role == r_, z3.Int(f"c{i}") == z3.If(i < a, o_, z3.If(i < a + lt, t_, o_))))
     state = {l: z3.IntVal(0) for l in locs}  # index 0 of every domain is the initial value
     pc = {t: z3.IntVal(0) for t in threads}
     obs = {}
@@ -632,7 +759,12 @@ def bmc_rw(prog, locs, dom, query, max_solutions=24):
         schedule = [threads[m.eval(c, model_completion=True).as_long()] for c in sched]
         hit = [(t, k) for t, k, d in diverge if z3.is_true(m.eval(d, model_completion=True))]
         sols.append(dict(schedule=schedule, divergent_reads=[(t, prog[t][k][1]) for t, k in hit][:6]))
-        if query == "read" and hit:
+        if one_preemption and len(threads) == 2:
+            solver.add(z3.Or(z3.Int("a") != m.eval(z3.Int("a"), model_completion=True), z3.Int("role") != m.eval(z3.Int("role"), model_completion=True)))
+            # schedules that expose the same set of divergent reads are equivalent for the replay: ask for a new set
+            if hit:
+                solver.add(z3.Not(z3.And(*[d for t, k, d in diverge if (t, k) in set(hit)])))
+        elif query == "read" and hit:
             solver.add(z3.Not(z3.And(*[d for t, k, d in diverge if (t, k) in set(hit)])))
         else:
             break
@@ -668,6 +800,16 @@ def replay_attr(which, schedule, solo):
 
 
 def replay(c):
+    if c["tid"].startswith("COLD/"):
+        names = COLD[c["args"][0]]
+        solo = {f"T{i + 1}": _cold("trace", nm)["outcome"] for i, nm in enumerate(names)}
+        rp = _cold("replay", ",".join(names), ",".join("T" + ch for ch in c["vals"]["schedule"]))
+        print("schedule:", c["vals"]["schedule"], "outcomes:", rp["outcomes"], "solo:", solo)
+        if any(rp["outcomes"].get(k) != v for k, v in solo.items()):
+            print("VIOLATION property=C07 (schedule reproduced on OS threads in a fresh interpreter)")
+            return 1
+        print("not reproduced")
+        return 0
     if c["tid"].startswith("ATTR/"):
         which = c["args"][0]
         schema, comps, calls = attr_scenario(which)
@@ -703,4 +845,8 @@ def templates(tier, seed):
     for which in ("pandas-coerce", "pandas-regex-name", "pandas-df-dtype", "pandas-schema-coerce", "pandas-schema-coerce-2", "pandas-schema-coerce-regex",
                   "pandas-index-coerce", "polars-coerce"):
         ts.append(Template(f"ATTR/{which}", cfg_case, (which,)))
+    for which in COLD:
+        if tier == "quick" and which in ("model||model", "pd.frame||pl.frame"):
+            continue
+        ts.append(Template(f"COLD/{which}", cfg_case, (which,)))
     return ts
